@@ -114,7 +114,21 @@ func Gen(r *rand.Rand, drivers []evt.Driver, pf Profile) *Program {
 		p.Ops = append(p.Ops, g.op(0, true))
 	}
 	if pf.Panics && !c.PanicHandler && !c.PHNil && r.IntN(2) == 0 {
-		// the panic handler is installed later: at a top-level point, or by a handler during a delivery
+		// the panic handler is installed later: at a top-level point, or by a handler during a delivery.
+		// A setter must not run while asynchronous handlers are in flight (setters are excluded from
+		// concurrent use), so such programs have no async registrations.
+		var noAsync func(ops []Op)
+		noAsync = func(ops []Op) {
+			for i := range ops {
+				if ops[i].Reg != nil {
+					ops[i].Reg.Async = false
+					for _, sc := range ops[i].Reg.Script {
+						noAsync(sc)
+					}
+				}
+			}
+		}
+		noAsync(p.Ops)
 		at := r.IntN(len(p.Ops))
 		if sub := p.Ops[at]; sub.K == Sub && !sub.Reg.Async && r.IntN(2) == 0 {
 			sub.Reg.Script = append([][]Op{{{K: SetPH}}}, sub.Reg.Script...)
